@@ -46,3 +46,19 @@ Example C10_demo :
   let c := {| unsafe := false; xhtml := false; hardwraps := false; talign := 2%Z |} in
   RenderHTML c [97;10;98] t = Ok [60;112;62;97;10;60;105;109;103;32;115;114;99;61;34;47;105;34;32;97;108;116;61;34;98;34;62;60;47;112;62;10;60;104;114;62;10].
 Proof. vm_compute. reflexivity. Qed.
+
+(* the same relations for the Convert model of the default parser (ParseTree then RenderHTML,
+   model/ParseI.v): both sides parse to the same tree *)
+Require Import GM.model.ParseI GM.proofs.ParseCompose.
+Theorem C10_convert_xhtml_rel : forall c src o, pinned c -> ConvertModel (with_xhtml c false) src = Ok o ->
+  exists o', ConvertModel (with_xhtml c true) src = Ok o' /\ XhtmlRel o o'.
+Proof. exact ConvertModel_xhtml_rel. Qed.
+Print Assumptions C10_convert_xhtml_rel.
+Theorem C10_convert_hardwraps_rel : forall c src o, ConvertModel (with_hardwraps c false) src = Ok o ->
+  exists o', ConvertModel (with_hardwraps c true) src = Ok o' /\ HardWrapRel (xhtml c) o o'.
+Proof. exact ConvertModel_hardwraps_rel. Qed.
+Print Assumptions C10_convert_hardwraps_rel.
+Theorem C10_convert_unsafe_rel : forall c src o', ConvertModel (with_unsafe c true) src = Ok o' ->
+  exists o, ConvertModel (with_unsafe c false) src = Ok o /\ UnsafeRel o o'.
+Proof. exact ConvertModel_unsafe_rel. Qed.
+Print Assumptions C10_convert_unsafe_rel.
